@@ -3,11 +3,11 @@ CONSTANTS
   Structures <- QuickStructures
   TrexDurs <- TrexBoth
   Bases = {"moof", "none", "start", "end", "exact", "both"}
-  DurModes = {"per", "tfhd", "trex"}
+  DurModes = {"per"}
   CtsModes = {"none", "v0", "v1neg"}
-  TfdtVs = {0, 1}
+  TfdtVs = {0}
   TrexPerTrack = FALSE
-  MdatFirsts = {FALSE}
+  MdatFirsts = {TRUE}
   Deliveries = {"one", "split"}
 INVARIANT Emit
 CHECK_DEADLOCK FALSE
